@@ -410,7 +410,7 @@ def r7_trunc(ck, F):
                 f, t = INT_BITS.get(st["rv"]["from"]), INT_BITS.get(st["rv"]["to"])
                 if f and t and t < f:
                     n += 1
-    ck.floor(R, "narrowing casts inspected", n, 10, F.config)
+    ck.floor(R, "narrowing casts inspected", n, 5, F.config)   # 20+ on the pinned tree, most of them in the unrolled varint encoder
 
 
 def r8_pod(ck, F):
